@@ -19,9 +19,19 @@ def _wrapped_eval_define(orig):
                 if target._cache.get(goal) is not None and target._cache.getEvalNode(goal) is not None:
                     # the goal is still being evaluated (active) but a result node is already in the
                     # cache (EvalDefine.new_result caches the first node of a ground goal on a cycle)
-                    pn = self.stack[parent] if parent is not None else None
-                    if isinstance(pn, en.EvalNot):
-                        EVENTS.append("negation-reads-cached-node-of-active-goal")
+                    # ... and it is read from below a negation that lies between the active goal and this call
+                    active = target._cache.getEvalNode(goal)
+                    cur = parent
+                    steps = 0
+                    while cur is not None and steps < 10000:
+                        pn = self.stack[cur]
+                        if pn is None or pn is active or getattr(pn, "pointer", None) == getattr(active, "pointer", -1):
+                            break
+                        if isinstance(pn, en.EvalNot):
+                            EVENTS.append("negation-reads-cached-node-of-active-goal")
+                            break
+                        cur = pn.parent
+                        steps += 1
         except Exception:
             pass
         return orig(self, node=node, context=context, target=target, parent=parent, identifier=identifier,
